@@ -6,10 +6,12 @@
       attempt := <name> ( manerr <cls> | man <id> <dataLen> <nlayers> {<dig> <size>}* <hascfg 0|1> [<dig> <size>] )
                  <nplans> {plan}* <nsteps> {step}*
       plan    := pfail | plist <n> {<dig> <start> <len>}*
-      step    := cancel | timeout | rel <k> fail <cls> | rel <k> body <npieces> {<hex>}* <eof|err|stall>
+      step    := cancel | timeout | rel <k> redirect | rel <k> fail <cls> | rel <k> body <npieces> {<hex>}* <eof|err|stall>
       -> per attempt "<outcome> n=<waiting requests before each step> link=<manifest id|none> files=<hex,...> stage=<hex,...>", joined by " | "
-    push <nlayers> {postErr|cached|putOk|putErr}* <nsched> {k}* <manifestOk 0|1>
-      -> "<events> res=<ok|err>" | bad-schedule
+    push <nlayers> {<npost> {<status> <loc 0|1>}* <nput> {<status> <loc>}*}* <nsched> {k}* <nman> {<status> <loc>}*
+      (per layer the answers to the physical requests of the POST exchange and of the upload PUT exchange, then
+       which goroutine's request arrives next, then the answers of the manifest PUT exchange)
+      -> "<events L<i>[p|u]:<METHOD>:<status> … M:<METHOD>:<status>> res=<ok|err>" | bad-schedule
     hpull <thr> <limit|-1> <linkShortcut> <verify> <staged> <nattempts> {attempt}*   (Local.handlePull's loop; the
       scripts are consumed one per Pull; when they run out while the loop still retries, the client goes away)
       -> "res=<ok|err:cls|clientGone> success=<true|false> attempts=<k> link=<manifest id|none>"
@@ -94,6 +96,7 @@ def pStep : TP Step := do
     let k ← nat
     match (← tok) with
     | "fail" => return .release k (.fail (← pCls))
+    | "redirect" => return .release k .redirect
     | "body" =>
       let ps ← listOf hex
       let e ← pEnd
@@ -134,20 +137,24 @@ def showHistory (cfg : Cfg) : Cache Dg → List (Attempt Dg) → List String
     let r := showAttempt cfg c a
     r.1 :: showHistory cfg r.2 as
 
-def pOut : TP UpOutcome := do
-  match (← tok) with
-  | "postErr" => pure .postErr
-  | "cached" => pure .cached
-  | "putOk" => pure .putOk
-  | "putErr" => pure .putErr
-  | _ => failure
+def pResp : TP Resp := do
+  let st ← nat
+  let l ← nat
+  pure ⟨st, l != 0⟩
+
+def pUp : TP UpScript := do
+  let po ← listOf pResp
+  let pu ← listOf pResp
+  pure ⟨po, pu⟩
 
 def pm (b : Bool) : String := if b then "+" else "-"
 
+def showMethod : Method → String
+  | .get => "GET" | .head => "HEAD" | .post => "POST" | .put => "PUT" | .patch => "PATCH"
+
 def showPushEv : PushEv → String
-  | .post i ok => s!"P{i}{pm ok}"
-  | .put i ok => s!"U{i}{pm ok}"
-  | .manifest => "M"
+  | .req i up m st => s!"L{i}{if up then "u" else "p"}:{showMethod m}:{st}"
+  | .man m st => s!"M:{showMethod m}:{st}"
 
 def showLegEv : LegEv → String
   | .head i r => s!"H{i}:{r}"
@@ -202,14 +209,12 @@ def handle (toks : List String) : Option String :=
       pure s!"res={res} success={handlerSaysSuccess r.2} attempts={k} link={link}") rest
   | "push" :: rest =>
     runTP (do
-      let outs ← listOf pOut
+      let ups ← listOf pUp
       let sched ← listOf nat
-      let mok ← pBool
-      pure (match pushTrace outs sched with
+      let man ← listOf pResp
+      pure (match pushTrace ups sched man with
         | none => "bad-schedule"
-        | some tr =>
-          let ok := outs.all (·.good) && mok
-          s!"{joinWith " " (tr.map showPushEv)} res={if ok then "ok" else "err"}")) rest
+        | some (tr, ok) => s!"{joinWith " " (tr.map showPushEv)} res={if ok then "ok" else "err"}")) rest
   | ["canretry", "ok"] => some (if canRetry .ok then "1" else "0")
   | "canretry" :: rest =>
     runTP (do
